@@ -165,6 +165,8 @@ def check_site(prog, sdef):
                     errs = True
         reaches_k = (v == k or k in f.reach_from(v))
         exc = sdef.get("pending_exception")
+        if exc:
+            prog.fn(exc)         # anchor (see Program._resolve_renamed_anchors)
         if errs and not reaches_k:
             obs.append(ok(RULE, "%s:pending" % name, st, "the Pending edge builds InfiniteRecursionDetected and cannot reach the compute call"))
         elif errs and reaches_k and exc:
